@@ -585,16 +585,28 @@ def _dict_builder(ctx, field: str):
         return "entry indices are not where_not_zero(%s) in (row, column) order" % mat
     roles = {a: ("basis", 0), b: ("basis", 1), r: ("entry", 0), c: ("entry", 1)}
     layouts = set()
+    ldefs = {st.targets[0].id: st.value for st in ast.walk(inner[0]) if isinstance(st, ast.Assign) and len(st.targets) == 1 and isinstance(st.targets[0], ast.Name)}
+
+    def loc(e):
+        for _ in range(3):
+            if isinstance(e, ast.Name) and e.id in ldefs:
+                e = ldefs[e.id]
+        return e
     for n in ast.walk(inner[0]):
         key = tup = None
         if isinstance(n, ast.Call) and isinstance(n.func, ast.Attribute) and n.func.attr == "append" and isinstance(n.func.value, ast.Subscript) \
                 and unparse(n.func.value.value) == "self." + field and n.args:
             key, tup = n.func.value.slice, n.args[0]
+        elif isinstance(n, ast.Call) and isinstance(n.func, ast.Attribute) and n.func.attr == "append" and isinstance(n.func.value, ast.Call) \
+                and isinstance(n.func.value.func, ast.Attribute) and n.func.value.func.attr == "setdefault" \
+                and unparse(n.func.value.func.value) == "self." + field and len(n.func.value.args) == 2 and n.args:
+            key, tup = n.func.value.args[0], n.args[0]
         elif isinstance(n, ast.Assign) and isinstance(n.targets[0], ast.Subscript) and unparse(n.targets[0].value) == "self." + field \
                 and isinstance(n.value, ast.List) and len(n.value.elts) == 1:
             key, tup = n.targets[0].slice, n.value.elts[0]
         if key is None:
             continue
+        key, tup = loc(key), loc(tup)
         if not (isinstance(key, ast.Tuple) and len(key.elts) == 2 and isinstance(tup, ast.Tuple) and len(tup.elts) == 3):
             return "stored entry is not key (x, y) -> (u, v, coefficient)"
         try:
